@@ -275,11 +275,34 @@ impl ContentDefinedChunker {
     ///
     /// After each triplet [`need_new_chunk`](Self::need_new_chunk) is called to
     /// evaluate if we need to create a new chunk.
+    #[cfg(test)]
     fn calculate<F>(
         &mut self,
         def_levels: LevelDataRef<'_>,
         rep_levels: LevelDataRef<'_>,
         num_levels: usize,
+        roll_value: F,
+    ) -> Vec<CdcChunk>
+    where
+        F: FnMut(&mut Self, usize),
+    {
+        self.calculate_at(def_levels, rep_levels, num_levels, None, roll_value)
+    }
+
+    /// Computes the chunk boundaries, `leaf_indices` optionally gives the position in the
+    /// leaf array of every non-null leaf value, in level order.
+    ///
+    /// For nested data the position of a value is otherwise derived by counting the leaf
+    /// slots seen so far, which is only correct if the children of the lists are laid out
+    /// contiguously and in order in the leaf array. That is not the case for list views
+    /// (which may be out of order, overlapping or sparse), nor for lists whose null
+    /// entries own a non-empty child range.
+    fn calculate_at<F>(
+        &mut self,
+        def_levels: LevelDataRef<'_>,
+        rep_levels: LevelDataRef<'_>,
+        num_levels: usize,
+        leaf_indices: Option<&[usize]>,
         mut roll_value: F,
     ) -> Vec<CdcChunk>
     where
@@ -395,7 +418,11 @@ impl ContentDefinedChunker {
                 self.roll_level(def_level);
                 self.roll_level(rep_level);
                 if def_level == self.max_def_level {
-                    roll_value(self, leaf_offset);
+                    let leaf_index = match leaf_indices {
+                        Some(indices) => indices[value_offset],
+                        None => leaf_offset,
+                    };
+                    roll_value(self, leaf_index);
                 }
 
                 // Check boundary before incrementing value_offset so that
@@ -440,12 +467,25 @@ impl ContentDefinedChunker {
 
     /// Compute CDC chunk boundaries by dispatching on the Arrow array's data type
     /// to feed value bytes into the rolling hash.
-    #[cfg(feature = "arrow")]
+    #[cfg(all(test, feature = "arrow"))]
     pub(crate) fn get_arrow_chunks(
         &mut self,
         def_levels: LevelDataRef<'_>,
         rep_levels: LevelDataRef<'_>,
         array: &dyn arrow_array::Array,
+    ) -> Result<Vec<CdcChunk>> {
+        self.get_arrow_chunks_at(def_levels, rep_levels, array, None)
+    }
+
+    /// Computes the chunk boundaries for `array`, `leaf_indices` optionally gives the position in
+    /// `array` of every non-null leaf value (see [`Self::calculate_at`])
+    #[cfg(feature = "arrow")]
+    pub(crate) fn get_arrow_chunks_at(
+        &mut self,
+        def_levels: LevelDataRef<'_>,
+        rep_levels: LevelDataRef<'_>,
+        array: &dyn arrow_array::Array,
+        leaf_indices: Option<&[usize]>,
     ) -> Result<Vec<CdcChunk>> {
         use arrow_array::cast::AsArray;
         use arrow_schema::DataType;
@@ -464,7 +504,7 @@ impl ContentDefinedChunker {
                 let data = array.to_data();
                 let buffer = data.buffers()[0].as_slice();
                 let values = &buffer[data.offset() * $N..];
-                self.calculate(def_levels, rep_levels, num_levels, |c, i| {
+                self.calculate_at(def_levels, rep_levels, num_levels, leaf_indices, |c, i| {
                     let offset = i * $N;
                     let slice = &values[offset..offset + $N];
                     c.roll_fixed::<$N>(slice.try_into().unwrap());
@@ -475,7 +515,7 @@ impl ContentDefinedChunker {
         macro_rules! binary_like {
             ($a:expr) => {{
                 let a = $a;
-                self.calculate(def_levels, rep_levels, num_levels, |c, i| {
+                self.calculate_at(def_levels, rep_levels, num_levels, leaf_indices, |c, i| {
                     c.roll(a.value(i).as_ref());
                 })
             }};
@@ -483,10 +523,12 @@ impl ContentDefinedChunker {
 
         let dtype = array.data_type();
         let chunks = match dtype {
-            DataType::Null => self.calculate(def_levels, rep_levels, num_levels, |_, _| {}),
+            DataType::Null => {
+                self.calculate_at(def_levels, rep_levels, num_levels, leaf_indices, |_, _| {})
+            }
             DataType::Boolean => {
                 let a = array.as_boolean();
-                self.calculate(def_levels, rep_levels, num_levels, |c, i| {
+                self.calculate_at(def_levels, rep_levels, num_levels, leaf_indices, |c, i| {
                     c.roll_fixed(&[a.value(i) as u8]);
                 })
             }
@@ -520,7 +562,7 @@ impl ContentDefinedChunker {
             DataType::Utf8View => binary_like!(array.as_string_view()),
             DataType::Dictionary(_, _) => {
                 let dict = array.as_any_dictionary();
-                self.get_arrow_chunks(def_levels, rep_levels, dict.keys())?
+                self.get_arrow_chunks_at(def_levels, rep_levels, dict.keys(), leaf_indices)?
             }
             _ => {
                 return Err(ParquetError::General(format!(
